@@ -89,9 +89,9 @@ class Raw:
         self.s = s
 
 
-def content(p, d=False, **refs):
+def content(tok, d=False, **refs):
     """Abstract content: property token p, deleted flag d, refs pred=(k, [targets])."""
-    return {"p": p, "refs": refs, "d": d}
+    return {"p": tok, "refs": refs, "d": d}
 
 
 def render_content(c, preds):
